@@ -222,7 +222,7 @@ def run_geom_case(ctx, case):
 
 def run(ctx):
     rng = ctx.rng(1)
-    nrep = 40 if ctx.tier == "quick" else 400
+    nrep = 40 if ctx.tier == "quick" else 3000
     for it in range(nrep):
         if ctx.out_of_time():
             ctx.notes.append(f"stopped at {it}")
